@@ -40,6 +40,8 @@ def workdir():
 
 
 def cleanup():
+    if os.environ.get("VERIF_KEEP"):
+        return
     shutil.rmtree(os.path.join(WORK, str(os.getpid())), ignore_errors=True)
 
 
@@ -150,7 +152,7 @@ def coq_eval(sources, timeout=900, tag="case"):
         p = subprocess.run("ulimit -s unlimited 2>/dev/null; exec timeout %d coqc -Q %s PFL %s" % (timeout, COQ, f),
                            shell=True, capture_output=True, text=True, cwd=d)
         if p.returncode != 0:
-            raise HarnessError("coqc failed on %s: %s" % (f, (p.stderr or p.stdout)[-1500:]))
+            raise HarnessError("coqc failed on %s (exit %d): %s" % (f, p.returncode, (p.stderr[-1500:] + "\n" + p.stdout[-300:])))
         return p.stdout
     with ThreadPoolExecutor(max_workers=NCPU) as ex:
         return list(ex.map(run, files))
